@@ -255,6 +255,46 @@ func TestCheck(t *testing.T) {
 		}
 	}
 
+	// frames larger than one 64 KiB page of the encoder's buffer: the first value is sized so that the header of the
+	// following message / the fields patched after the content land on every byte position around the page boundary
+	s.Begin("produce-page-boundary-sweep")
+	step := 1
+	if !thorough {
+		step = 2
+	}
+	for _, pv := range []int16{2, 7} {
+		for sz := 65536 - 150; sz <= 65536+20; sz += step {
+			pv, sz := pv, sz
+			id := fmt.Sprintf("first value %d bytes produce-v%d", sz, pv)
+			s.Case(id, id, func() (string, *seqx.Viol) {
+				var v *seqx.Viol
+				br := bub.Run(t, 0, func() {
+					c := hx.NewCluster()
+					vs := hx.Versions(map[protocol.ApiKey]fk.VRange{protocol.Produce: {0, pv}})
+					c.Versions = map[int]map[protocol.ApiKey]fk.VRange{1: vs, 2: vs}
+					cl, tr := clientops.NewClient(c)
+					defer tr.CloseIdleConnections()
+					t0 := time.UnixMilli(1714557600000)
+					in := []rec{{key: []byte("k0"), val: big(sz, 3), t: t0}, {key: []byte("k1"), val: []byte("second"), t: t0.Add(time.Millisecond)}, {key: nil, val: []byte("third"), t: t0.Add(2 * time.Millisecond)}}
+					var rs []kafka.Record
+					for _, r := range in {
+						rs = append(rs, kafka.Record{Key: kafka.NewBytes(r.key), Value: kafka.NewBytes(r.val), Time: r.t})
+					}
+					res, err := cl.Produce(ctx, &kafka.ProduceRequest{Topic: "t", Partition: 0, RequiredAcks: kafka.RequireAll, Records: kafka.NewRecordReader(rs...)})
+					if err != nil || res.Error != nil {
+						v = &seqx.Viol{Sig: "client:produce-failed", Msg: fmt.Sprint(err, res)}
+						return
+					}
+					v = checkProduced("client", c, in, pv >= 3, 0)
+				})
+				if br.Panic != "" {
+					return "panic", &seqx.Viol{Sig: "panic:client-produce", Msg: br.Panic}
+				}
+				return fmt.Sprintf("v%d", pv), v
+			})
+		}
+	}
+
 	s.Begin("produce-conn-legacy")
 	for _, n := range names {
 		for _, pv := range []int16{2, 3, 7} {
